@@ -396,6 +396,11 @@ func c07Run(sc *C07Sc, evs []world.Event, budget int, env *Env) (*c07Final, *Vio
 
 func c07Compare(sc *C07Sc, base, got *c07Final, nEvents int, what string) *Violation {
 	a, b := base.st, got.st
+	if a.IR.Lo&0x80 != b.IR.Lo&0x80 {
+		// (the refresh counter counts in its low seven bits; bit 7 is only ever changed by LD R,A, which
+		// neither the programs nor the handlers execute)
+		return viol("twin-final-state", "%s: bit 7 of R differs from the undisturbed run (%02x!=%02x): counting refresh cycles never touches it", what, a.IR.Lo, b.IR.Lo)
+	}
 	if d := world.DiffStates(a, b, true); d != "" {
 		return viol("twin-final-state", "%s: final registers differ from the undisturbed run (undisturbed!=interrupted):%s", what, d)
 	}
@@ -543,7 +548,7 @@ func (c07) Exec(sci interface{}, env *Env) *Violation {
 			}
 		}
 	}
-	return c07RunDriven(sc, env)
+	return c07RunDriven(sc, env, base)
 }
 
 // c07RunDriven is the host that never calls Step: Run to the final HALT, then - for every kind of
@@ -551,7 +556,7 @@ func (c07) Exec(sci interface{}, env *Env) *Violation {
 // served by exactly one handler execution if it is acceptable (NMI, or IFF1 set), must stay pending
 // otherwise, and the machine must be parked on the same HALT with the same registers and memory.
 // Mode-0 requests are left out (known finding D4: their return address cannot be repaired inside Run).
-func c07RunDriven(sc *C07Sc, env *Env) *Violation {
+func c07RunDriven(sc *C07Sc, env *Env, base *c07Final) *Violation {
 	if sc.Dumb || sc.Swap != 0 {
 		return nil
 	}
@@ -628,6 +633,43 @@ func c07RunDriven(sc *C07Sc, env *Env) *Violation {
 		env.Fire("run-driven/raised-while-parked/acceptable=" + fmt.Sprint(acceptable))
 	}
 	env.Ticks += m.Bus.Tick
+	// ... and a request that a device raises from inside the opcode fetch of the final HALT, while Run is
+	// executing: every Run that returns nil has the CPU parked on the HALT (never inside the handler), and
+	// after three Runs the handler has run once if the request was acceptable
+	for _, kind := range sc.Kinds {
+		if kind.Kind == world.EvINT && sc.Prog.Regs.IM == 0 {
+			continue
+		}
+		ev := kind
+		ev.AtTick = base.ticks
+		m2, err := world.NewMachine(sc.Prog.Regs, segs, sc.IOSeed, []world.Event{ev})
+		if err != nil {
+			return viol("harness", "bad scenario: %v", err)
+		}
+		if sc.NilHandlers {
+			m2.CPU.RETNHandler, m2.CPU.RETIHandler = nil, nil
+		}
+		m2.Hook = m.Hook
+		m, cpu = m2, m2.CPU
+		what := fmt.Sprintf("host that only calls Run: %s raised by a device during the fetch of the final HALT (tick %d), Run x3", world.FmtRequest(kind.Request()), base.ticks)
+		for i := 0; i < 3; i++ {
+			if v := run(what); v != nil {
+				if strings.Contains(v.Detail, "still executing") {
+					return nil
+				}
+				return v
+			}
+		}
+		acceptable := kind.Kind == world.EvNMI || cpu.IFF1 || m.Accepted > 0
+		cnt := int(m.Bus.Mem[sc.Counter] - base.mem[sc.Counter])
+		if d := world.DiffStates(base.st, cpu.States, true); d != "" {
+			return viol("run-driven", "%s: registers differ from the undisturbed run (undisturbed!=interrupted):%s", what, d)
+		}
+		if acceptable && cnt != 1 {
+			return viol("run-driven", "%s: the handler ran %d times (want 1), slot now holds %s", what, cnt, world.FmtRequest(cpu.Interrupt))
+		}
+		env.Fire("run-driven/raised-during-the-halt-fetch")
+	}
 	return nil
 }
 
